@@ -8,10 +8,10 @@ or `err=<class>`; after an error every further line of the case is answered `dea
   pkg <id,id,...>                         declare the next property package (chemical ids in package order)
   new <pkg> S <phase> <v,v,...> [o<perm>] single-phase stream, dense flows in package order (o…: entry order, ignored)
   new <pkg> M <phases> <v,..;v,..;...>    multi-phase stream, one row per listed phase
-  mix <r> <i,j,...|->                     r.mix_from([...], energy_balance=False)
+  mix <r> <i,j.p,...|->                   r.mix_from([...], energy_balance=False); `j.p` = the phase view S[j]['p']
   sum <pkg> <i,j,...|->                   Stream.sum([...], thermo=pkg, energy_balance=False)  (new stream)
   split <f> <a> <b> s <q> | v <q,q,...>   f.split_to(a, b, split, energy_balance=False)
-  sep <x> <y>                             x.separate_out(y, energy_balance=False)
+  sep <x> <y|j.p>                         x.separate_out(y, energy_balance=False)
   copy <d> <s> <*|=c|c,c,..|()> <rm> <ex> [phase]  d.copy_flow(s, [phase,] IDs, remove=, exclude=)
   scale <i> <k> | idiv <i> <k> | mul <i> <k> | div <i> <k> | empty <i>
 -/
@@ -25,12 +25,24 @@ structure St where
 def parseNats (s : String) : Option (List Nat) :=
   if s == "-" || s == "()" then some [] else (splitComma s).mapM (·.toNat?)
 
-def parseRats (s : String) : Option (List Rat) := (splitComma s).mapM parseRat?
-
 def parsePhases (s : String) : Option (List Char) :=
   let cs := s.toList
   if cs.all (fun c => c == 's' || c == 'l' || c == 'g' || c == 'S' || c == 'L') && !cs.isEmpty
   then some cs else none
+
+/-- `3` = stream 3, `3.g` = the phase view `S[3]['g']` -/
+def parseRef (t : String) : Option Ref :=
+  match splitOn1 t '.' with
+  | [i] => i.toNat?.map Ref.strm
+  | [j, p] => match j.toNat?, p.toList with
+    | some j, [c] => if (parsePhases p).isSome then some (.view j c) else none
+    | _, _ => none
+  | _ => none
+
+def parseRefs (s : String) : Option (List Ref) :=
+  if s == "-" || s == "()" then some [] else (splitComma s).mapM parseRef
+
+def parseRats (s : String) : Option (List Rat) := (splitComma s).mapM parseRat?
 
 def sortedNats (l : List Nat) : List Nat :=
   l.foldr (fun x acc => (acc.filter (· < x)) ++ [x] ++ (acc.filter (fun y => !(y < x)))) []
@@ -109,8 +121,8 @@ def step (st : St) (line : String) : St × String :=
       else bad st
     | _, _, _ => bad st
   | ["mix", r, ins] =>
-    match r.toNat?, parseNats ins with
-    | some r, some ins => finish st (mix w r ins)
+    match r.toNat?, parseRefs ins with
+    | some r, some ins => if r < w.strms.length then finish st (mixR w r ins) else finish st (mix w r [])
     | _, _ => bad st
   | ["sum", pkg, ins] =>
     match pkg.toNat?, parseNats ins with
@@ -130,8 +142,8 @@ def step (st : St) (line : String) : St × String :=
       else bad st
     | _, _, _ => bad st
   | ["sep", x, y] =>
-    match x.toNat?, y.toNat? with
-    | some x, some y => finish st (sep w x y)
+    match x.toNat?, parseRef y with
+    | some x, some y => if x < w.strms.length then finish st (sepR w x y) else finish st (sep w x x)
     | _, _ => bad st
   | ["copy", d, s, ids, rm, ex] => copyOp st d s ids rm ex "*"
   | ["copy", d, s, ids, rm, ex, ph] => copyOp st d s ids rm ex ph
